@@ -23,7 +23,7 @@ import (
 
 var c19Lists = []scen.ListSpec{
 	{ID: 1, Text: "! list 1 (file)\n||example.org^\n||example.org/ads\n/ex[a-z]+le\\.net/\n/ad$domain=example.org\n@@||example.org^$generichide\n##.g1\nexample.org##.s1\n/x$domain=example.org\n/x$domain=sub.example.org\n/x$domain=org\n/ads$domain=b.test\n/pix$domain=a.test|b.test\n" + c19BigRule() + "\n/cand0x\n/cand1x\n/cand2x\n/cand3x\n/cand4x\n/cand5x\n/cand6x\n/cand7x\n/cand8x\n/cand9x\n/cachedx\n"},
-	{ID: 2, Text: "# list 2 (file)\n||ads.example.com^\n0.0.0.0 example.org\n:: example.org\n127.0.0.1 hosts.test alias.test\n||blocked.test^$client=10.0.0.1\n/h[o0]sts\\.test/\n||rw.test^$dnsrewrite=1.2.3.4\n0.0.0.0 shared.test\n0.0.0.0 only.test shared.test\n||shared2.test^\n||only2.test^$important\n"},
+	{ID: 2, Text: "# list 2 (file)\n||ads.example.com^\n0.0.0.0 example.org\n:: example.org\n127.0.0.1 hosts.test alias.test\n||blocked.test^$client=10.0.0.1\n/h[o0]sts\\.test/\n||rw.test^$dnsrewrite=1.2.3.4\n0.0.0.0 shared.test\n0.0.0.0 only.test shared.test\n||shared2.test^\n||only2.test^$important\n||twin.test^\n||twin.test^$important\n"},
 }
 
 // c19BigRule returns a rule of about 1.5 KiB.
@@ -35,7 +35,9 @@ func c19BigRule() string {
 	return s
 }
 
-var c19StringList = scen.ListSpec{ID: 3, Text: "||string.test^\n0.0.0.0 string-host.test\n"}
+// (the $badfilter twin of a rule of file list 2 lives in the list that is never unreadable: after the fault
+// it is the only rule left that matches twin.test)
+var c19StringList = scen.ListSpec{ID: 3, Text: "||string.test^\n0.0.0.0 string-host.test\n||twin.test^$badfilter\n"}
 
 func c19Queries() []scen.Query {
 	return []scen.Query{
@@ -64,6 +66,9 @@ func c19Queries() []scen.Query {
 		{Kind: "netall", URL: "http://y.test/cand0x/cand1x/cand2x/cand3x/cand4x/cand5x/cand6x/cand7x/cand8x/cand9x/cachedx", Type: rules.TypeScript},
 		{Kind: "dns", Host: "only.test", DNSType: 1},
 		{Kind: "dns", Host: "shared.test", DNSType: 1},
+		// a rule whose $badfilter twin is in the string-backed list
+		{Kind: "dns", Host: "twin.test", DNSType: 1},
+		{Kind: "netmatch", URL: "http://twin.test/", Type: rules.TypeScript},
 		// not a query: further engines are built over the same storage (their
 		// results are not looked at; the engines built first must not notice)
 		{Kind: "newengine"},
@@ -108,6 +113,14 @@ func c19Result(e *scen.Engines, q scen.Query) (texts []string, lie string) {
 	case "netall":
 		req := rules.NewRequest(q.URL, q.Src, q.Type)
 		for _, r := range e.Net.MatchAll(req) {
+			texts = append(texts, r.RuleText)
+			if !r.Match(req) {
+				lie = r.RuleText
+			}
+		}
+	case "netmatch":
+		req := rules.NewRequest(q.URL, q.Src, q.Type)
+		if r, _ := e.Net.Match(req); r != nil {
 			texts = append(texts, r.RuleText)
 			if !r.Match(req) {
 				lie = r.RuleText
